@@ -164,7 +164,9 @@ theorem normalizeMode_get (K : Ktensor α) (n : Nat) (hn : n < K.factors.length)
     · show (tab _ _ _).get _ r = _ * (factor K n).get _ r
       by_cases hk : i.getD n 0 < (factor K n).length
       · rw [tab_get _ hk hr, hnr]
-        simp [NumOps.ofField, hpos]
+        have hlt : (NumOps.ofField log).lt 0 (colNorm1 (NumOps.ofField log) (factor K n) r) = true :=
+          decide_eq_true hpos
+        rw [if_pos hlt]
       · rw [tab_get_of_le _ (Nat.le_of_not_lt hk), get_of_le_length (Nat.le_of_not_lt hk), mul_zero]
   · have hz : colNorm1 (NumOps.ofField log) (factor K n) r = 0 :=
       le_antisymm (not_lt.mp hpos) (colNorm1_nonneg log _ _)
@@ -250,6 +252,80 @@ theorem normalizeAbsorb0_get {K : Ktensor α} (h : NonnegK K) (hN : 0 < K.factor
   unfold normalizeAbsorb0
   rw [absorb0_get _ (by rw [normalize1_nfactors]; exact hN) i (by rw [normalize1_nfactors]; exact hi)]
   exact normalize1_get log h hN i hi
+
+theorem map_range_getD {β : Type} (p : List Nat) (F : Nat → β) :
+    (List.range p.length).map (fun s => F (p.getD s 0)) = p.map F := by
+  apply List.ext_getElem (by simp)
+  intro k h1 h2
+  simp only [List.getElem_map, List.getElem_range]
+  congr 1
+  rw [List.getD_eq_getElem?_getD, List.getElem?_eq_getElem (by simpa using h1)]
+  rfl
+
+theorem permcols_get (A : Mat α) (p : List Nat) (ik s : Nat) (hs : s < p.length) :
+    Mat.get (A.map fun row => p.map (vget row)) ik s = A.get ik (p.getD s 0) := by
+  unfold Mat.get
+  by_cases hik : ik < A.length
+  · have e1 : (A.map fun row => p.map (vget row)).getD ik [] = p.map (vget (A.getD ik [])) := by
+      rw [List.getD_eq_getElem?_getD, List.getD_eq_getElem?_getD]
+      simp [hik]
+    rw [e1, List.getD_eq_getElem?_getD]
+    simp [hs, vget]
+  · have e1 : (A.map fun row => p.map (vget row)).getD ik [] = [] := by
+      rw [List.getD_eq_getElem?_getD, List.getElem?_eq_none (by simpa using Nat.le_of_not_lt hik)]; rfl
+    have e2 : A.getD ik [] = [] := by
+      rw [List.getD_eq_getElem?_getD, List.getElem?_eq_none (Nat.le_of_not_lt hik)]; rfl
+    rw [e1, e2]
+    simp
+
+/-- Re-ordering the components by a permutation of `0..R-1` does not change the tensor. -/
+theorem arrange_get (K : Ktensor α) (p : List Nat) (hp : p.Perm (List.range K.weights.length))
+    (i : List Nat) : (arrange K p).get i = K.get i := by
+  have hlen : p.length = K.weights.length := by rw [hp.length_eq, List.length_range]
+  unfold Ktensor.get Ktensor.ncomp Ktensor.comp arrange
+  simp only [List.length_map]
+  have e : ((List.range p.length).map fun r =>
+        (p.map (vget K.weights)).getD r 0 *
+          (List.zipWith (fun (A : Mat α) ik => A.get ik r)
+            (K.factors.map fun A => A.map fun row => p.map (vget row)) i).prod) =
+      (List.range p.length).map (fun s =>
+        (fun r => K.weights.getD r 0 * (List.zipWith (fun (A : Mat α) ik => A.get ik r) K.factors i).prod)
+          (p.getD s 0)) := by
+    apply List.map_congr_left
+    intro s hs
+    have hs' : s < p.length := List.mem_range.mp hs
+    congr 1
+    · rw [List.getD_eq_getElem?_getD, List.getD_eq_getElem?_getD]
+      simp [hs', vget]
+    · rw [List.zipWith_map_left]
+      congr 2
+      funext A ik
+      exact permcols_get A p ik s hs'
+  rw [e, map_range_getD p
+    (fun r => K.weights.getD r 0 * (List.zipWith (fun (A : Mat α) ik => A.get ik r) K.factors i).prod)]
+  exact (hp.map _).sum_eq
+
+theorem arrange_nfactors (K : Ktensor α) (p : List Nat) : (arrange K p).factors.length = K.factors.length := by
+  simp [arrange]
+
+theorem normalizeSort_get {K : Ktensor α} (h : NonnegK K) (hN : 0 < K.factors.length)
+    (sortPerm : List α → List Nat) (hsp : ∀ w, (sortPerm w).Perm (List.range w.length)) (i : List Nat)
+    (hi : i.length = K.factors.length) :
+    (normalizeSort (NumOps.ofField log) sortPerm K).get i = K.get i := by
+  unfold normalizeSort
+  simp only
+  split
+  · rw [arrange_get _ _ (hsp _)]
+    exact normalize1_get log h hN i hi
+  · exact normalize1_get log h hN i hi
+
+theorem normalizeSort_nfactors (o : NumOps α) (sortPerm : List α → List Nat) (K : Ktensor α) :
+    (normalizeSort o sortPerm K).factors.length = K.factors.length := by
+  unfold normalizeSort
+  simp only
+  split
+  · rw [arrange_nfactors, normalize1_nfactors]
+  · exact normalize1_nfactors o K
 
 end denote
 
